@@ -138,6 +138,9 @@ def run(tier, seed, t0):
     import c16
     hl = [0, 3, 255, 256, 300] if tier == "quick" else [0, 1, 3, 20, 55, 56, 64, 255, 256, 257, 300, 511, 512, 1000, 4096]
     jobs += [(lambda n=n: c16.ob_hash_framing("h2", n, 384)) for n in hl]
+    # the layers named in this property's mechanism: hash-to-range arithmetic (C16), exponentiation in GT (C13 L4), the pairing (C12)
+    import c12, c13_l4
+    jobs = [c13_l4.ob_fp12_pow] + jobs + [c16.ob_getu64, c16.ob_from_hash] + c12.jobs_for(tier)
     res = run_parallel(jobs, nproc=14)
     return finish("C09", tier, seed, "model_checking", res, t0,
                   assumptions=["pairing and group/field layers uninterpreted (C12, C13); H2 framing decided here per message length (incl. > 255 bytes), H1 framing and hash-to-range arithmetic in C16", "equality with the Annex A value: replay reference only",
